@@ -1,7 +1,14 @@
-(* Props/C19.v — property C19 (label helpers agree with the wire-format label
-   sequence).  Only statements; each is closed by [exact] of a lemma proved in
-   Proofs/. *)
-From Dns Require Import Model.Labels Proofs.LabelsProofs.
+(* Props/C19.v — property C19: the label helpers agree with the wire-format label
+   sequence of every valid name.  Only statements; each is closed by [exact] of a
+   lemma proved in Proofs/LabelsProofs.v.
+
+   Vocabulary.  A name is a list of wire labels [ls]; [labels_wf ls] says every
+   label is a non-empty list of octets (< 256).  [show_labels ls] is the
+   presentation text UnpackDomainName produces (escaping of dots, backslashes,
+   specials as \c and non-printables as \DDD, every label followed by a dot);
+   [name_form true ls] is that text, [name_form false ls] the same without the
+   final dot.  [mid ++ [last]] is an arbitrary non-root name. *)
+From Dns Require Import Model.Labels Proofs.EscapeProofs Proofs.LabelsProofs.
 
 (* IsFqdn: exactly the strings ending in a dot that is preceded by an even
    number (possibly zero) of backslashes. *)
@@ -11,3 +18,46 @@ Theorem fqdn_iff_unescaped_trailing_dot :
     exists p k, s = p ++ repeat 92%N k ++ [46%N] /\ Nat.even k = true /\
                 (forall q, p <> q ++ [92%N]).
 Proof. exact is_fqdn_spec. Qed.
+
+(* CountLabel = number of wire labels, for both presentation forms. *)
+Theorem count_label_is_wire_label_count :
+  forall (fq : bool) (mid : list label) (last : label),
+    labels_wf mid -> last <> [] /\ wfb last ->
+    count_label (name_form fq (mid ++ [last])) = Some (length (mid ++ [last])).
+Proof. exact count_label_spec. Qed.
+
+(* Split = the offsets at which the printed labels start:
+   0, |l1'|+1, |l1'|+1+|l2'|+1, ...  where li' is the printed form of label i. *)
+Theorem split_is_wire_label_starts :
+  forall (fq : bool) (mid : list label) (last : label),
+    labels_wf mid -> last <> [] /\ wfb last ->
+    split (name_form fq (mid ++ [last])) = Some (label_starts 0 (mid ++ [last])).
+Proof. exact split_spec. Qed.
+
+(* NextLabel from the start of any label goes to the start of the next label, and
+   from the last label reports the end of the string. *)
+Theorem next_label_visits_exactly_the_label_starts :
+  forall (fq : bool) (pre : list label) (l : label) (post : list label),
+    labels_wf pre -> l <> [] /\ wfb l -> labels_wf post ->
+    next_label (name_form fq (pre ++ l :: post)) (length (show_labels pre)) =
+    match post with
+    | [] => (length (name_form fq (pre ++ [l])), true)
+    | _ => ((length (show_labels pre) + length (show_label l) + 1)%nat, false)
+    end.
+Proof. exact next_label_visits. Qed.
+
+(* Fqdn changes nothing but appending the root dot. *)
+Theorem fqdn_only_appends_root :
+  forall (fq : bool) (mid : list label) (last : label),
+    labels_wf mid -> last <> [] /\ wfb last ->
+    fqdn (name_form fq (mid ++ [last])) = show_labels (mid ++ [last]).
+Proof. exact fqdn_spec. Qed.
+
+(* CanonicalName = the FQDN text of the same labels with ASCII letters lower-cased
+   (escapes are untouched: lower-casing commutes with printing). *)
+Theorem canonical_name_lowercases_labels :
+  forall (fq : bool) (mid : list label) (last : label),
+    labels_wf mid -> last <> [] /\ wfb last ->
+    canonical_name (name_form fq (mid ++ [last])) =
+    show_labels (map lower_bytes (mid ++ [last])).
+Proof. exact canonical_name_spec. Qed.
